@@ -8,6 +8,17 @@ ROOT = os.path.dirname(os.path.dirname(os.path.abspath(__file__)))
 props = [json.loads(l) for l in open(os.path.join(ROOT, "properties.jsonl"))]
 
 CHECKS = {
+    "C16": dict(
+        text="HotCold.tla refines every store operation into its hot and cold halves with interruptions in between; TLC proves "
+             "HotComplete and NoDataInHot in every state for the implemented orders and shows both swapped orders fail. Real "
+             "histories (backup, forget, prune, config, repair-index, real restore to disk, check) run on a hot/cold pair of "
+             "in-memory stores on one clock, the cold one rejecting reads without prior warm-up in two thirds of the runs; "
+             "HotColdTrace.tla checks HotComplete/NoDataInHot after every store operation, WarmBeforeRead at every cold read, "
+             "equivalence with a twin run on a single store, and completeness after removing classes of hot files + repair.",
+        note="Each store operation is atomic; interruption = stop between two operations of the combined log. check --read-data "
+             "is excluded (unsupported on hot/cold by design, D2). Copy is not part of these histories.",
+        technique="TLC refinement model of hot/cold sub-operations + TLC trace validation of the combined hot+cold operation log",
+        design="4/C16"),
     "C10": dict(
         text="Repo.tla with two command processes (TLC, every interleaving of storage steps of 1 backup || 1 non-instant prune "
              "plus a trailing prune; and backup || backup) proves AllRecoverable in every state and AllReadable after a prune "
